@@ -101,9 +101,34 @@ def run(chk):
                 chk.cov["known_finding_cases"] = chk.cov.get("known_finding_cases", 0) + 1
             else:
                 m_fail.append((k, s, a, sp))
+    # ---- encoding names, production [81]: [A-Za-z] ([A-Za-z0-9._] | '-')*  - the class of the FIRST character differs from the
+    # class of the others (round-6 seed C18-H read the whole name with one class)
+    import re as _re
+    enc_names = ["", "a", "Z", "utf-8", "UTF-8", "ISO-8859-1", "x.y_z-1", "8859-1", "1252", "-utf-8", ".utf8", "_", "_a", "9", "a b", "a:b",
+                 "\u00e9", "u\u00e9", "a+", "a/", "A9.", "z-", "-", ".", "a\u00b7", "UTF_16"]
+    enc_names += [c + "x" for c in "0123456789._-"] + ["x" + c for c in "0123456789._-"]
+    e_lines = [lib.req("accept", '<?xml version="1.0" encoding="%s"?><a/>' % nm) for nm in enc_names]
+    e_impl, e_model = lib.both(e_lines, timeout=600)
+    for nm, a, b in zip(enc_names, e_impl, e_model):
+        chk.count(["encname", nm], nontrivial=True)
+        want = "ok" if _re.fullmatch(r"[A-Za-z][A-Za-z0-9._-]*", nm) else "err"
+        got = "ok" if a.startswith("ok") else "err"
+        if got != want:
+            m_fail.append(("encoding-name", nm, got, want))
+        elif a != b:
+            t_dis.append(("encoding-name", nm, a, b))
+    chk.cov["encoding_names_probed"] = len(enc_names)
     chk.cov["disagreements_checked"] = len(t_dis)
     chk.cov["monitor_failures"] = len(m_fail)
     for k, s, a, sp in m_fail[:3]:
+        if k == "encoding-name":
+            doc_ = '<?xml version="1.0" encoding="%s"?><a/>' % s
+            chk.violation("encname_%s" % lib.enc(s)[:40],
+                          "property C18: encoding name syntax, production [81] EncName ::= [A-Za-z] ([A-Za-z0-9._] | '-')*\n"
+                          "candidate=%r: the XML declaration with it is %s, the production says %s\n"
+                          "replay: printf 'accept\\t%s\\n' | harness/target/debug/xmlrs-driver\n"
+                          % (s, "accepted" if a == "ok" else "refused", "accept" if sp == "ok" else "refuse", lib.enc(doc_).replace("%", "%%")))
+            continue
         chk.violation("name_%s_%s" % (k, lib.enc(s)[:40]),
                       "property C18: name syntax. use=%s candidate=%r (percent-encoded %s)\n"
                       "implementation accepts=%s, XML 1.0 / Namespaces says %s\n"
